@@ -85,15 +85,27 @@ class DataLoggerRun:
         fm = {"raw": RawFormatter, "json": JsonFormatter, "quicklogger": QLFormatter, "msg_header": MsgHeaderFormatter}
         nds = 1 + ch.pick("cfg.nds", 3)
         self.sets = []
+        fmts = [self.forced.get("formatter") or ch.choose("cfg.fmt", ["raw", "json", "quicklogger", "raw", "json", "quicklogger", "msg_header"])
+                for _ in range(nds)]
+        # messages with time-code headers only make sense for the raw format (the others are defined on the plain header)
+        self.tc_msgs = all(f == "raw" for f in fmts) and ch.flag("cfg.tc_msgs", 1, 3)
+        # message types at the top of the legal id range (definitions the quicklogger reader's file does not know)
+        self.high_ids = ("quicklogger" not in fmts) and ch.flag("cfg.high_ids", 1, 3)
+        self.msg_types = list(MSG_TYPES) + ([9999, 10000] if self.high_ids else [])
+        if self.high_ids:
+            self.register_high_ids()
+            self.res.probes["high_type_ids"] += 1
+        if self.tc_msgs:
+            self.res.probes["timecode_headers"] += 1
         for i in range(nds):
-            fmt = self.forced.get("formatter") or ch.choose("cfg.fmt", ["raw", "json", "quicklogger", "raw", "json", "quicklogger", "msg_header"])
+            fmt = fmts[i]
             sel = ch.weighted("cfg.sel", [(2, "all"), (3, "some"), (1, "one")])
             if sel == "all":
                 types = [ALL]
             elif sel == "one":
-                types = [ch.choose("cfg.t", [t for t in MSG_TYPES if t > 0])]
+                types = [ch.choose("cfg.t", [t for t in self.msg_types if t > 0])]
             else:
-                types = [t for t in MSG_TYPES if t > 0 and ch.flag("cfg.tsel", 1, 2)] or [26]
+                types = [t for t in self.msg_types if t > 0 and ch.flag("cfg.tsel", 1, 2)] or [26]
             sub = ch.choose("cfg.subdiv", [0, 0, 30, 600])
             ds = DSM.DataSet("coll", f"ds{i}", "", f"ds{i}", fm[fmt], sub, types, md)
             self.dc.add_data_set(ds)
@@ -112,6 +124,10 @@ class DataLoggerRun:
                 self.res.probes["dataset_removed"] += 1
                 continue
             fmt2 = self.forced.get("formatter") or ch.choose("cfg.fmt2", ["raw", "json", "quicklogger"])
+            if self.tc_msgs:
+                fmt2 = "raw"
+            elif self.high_ids and fmt2 == "quicklogger":
+                fmt2 = "json"
             ds2 = DSM.DataSet("coll", old.name, "", old.name, fm[fmt2], sub, types, md)
             if how == "remove_add":
                 self.dc.rm_data_set(old.name)
@@ -123,6 +139,24 @@ class DataLoggerRun:
                                sets=[(fmt, ["ALL" if t == ALL else t for t in types], sub)
                                      for (_d, fmt, types, sub) in self.sets], forced=self.forced)
         self.atomic_writer_pair = not self.forced.get("allow_window", False) and self.forced.get("atomic_pair", False)
+
+    def register_high_ids(self):
+        import pyrtma
+        from pyrtma.message_base import MessageMeta
+        from pyrtma.validators import Int32
+
+        def mk(tid):
+            class MDF_HIGH(pyrtma.MessageData, metaclass=MessageMeta):
+                type_id = tid
+                type_name = f"HIGH_{tid}"
+                type_hash = 0x4000 + tid
+                type_size = 8
+                type_source = ""
+                type_def = ""
+                a: Int32 = Int32()
+                b: Int32 = Int32()
+            return MDF_HIGH
+        self.high_cls = {t: pyrtma.message_def(mk(t)) for t in (9999, 10000)}
 
     def _set(self, obj, name, value):
         missing = object()
@@ -157,8 +191,12 @@ class DataLoggerRun:
         ch = self.ch
         self.n_msgs += 1
         n = self.n_msgs
-        t = ch.choose("msg.type", MSG_TYPES)
-        if t == 26:
+        t = ch.choose("msg.type", self.msg_types)
+        if t in (9999, 10000):
+            d = self.high_cls[t]()
+            d.a = n
+            d.b = -n
+        elif t == 26:
             d = cd.MDF_MODULE_READY()
             d.pid = n
         elif t == 32:
@@ -175,7 +213,13 @@ class DataLoggerRun:
             d.msg_header.msg_type = n
         else:
             d = cd.MDF_DISCONNECT()
-        h = pyrtma.MessageHeader()
+        if self.tc_msgs:
+            from pyrtma.header import TimeCodeMessageHeader
+            h = TimeCodeMessageHeader()
+            h.utc_seconds = 1_700_000_000 + n
+            h.utc_fraction = n * 7
+        else:
+            h = pyrtma.MessageHeader()
         h.msg_type = t
         h.msg_count = n
         h.send_time = 5000.0 + n
@@ -348,12 +392,13 @@ class DataLoggerRun:
             if fmt == "raw":
                 data = open(p, "rb").read()
                 pos = 0
-                while len(data) - pos >= 48:
+                hs = 56 if self.tc_msgs else 48
+                while len(data) - pos >= hs:
                     n = struct.unpack_from("<i", data, pos + 32)[0]
-                    if n < 0 or len(data) - pos - 48 < n:
+                    if n < 0 or len(data) - pos - hs < n:
                         break
-                    out.append(data[pos:pos + 48 + n])
-                    pos += 48 + n
+                    out.append(data[pos:pos + hs + n])
+                    pos += hs + n
                 if pos != len(data):
                     self.res.add("C17", "raw_torn", f"{os.path.basename(p)}: {len(data) - pos} stray bytes at the end")
             elif fmt == "msg_header":
